@@ -885,7 +885,8 @@ func zzC19(t *testing.T, res *zzResult, rng *rand.Rand, work, tier string) {
 			Method   string `json:"method"`
 		}
 		var tags []tagSpec
-		tags = append(tags, tagSpec{Pattern: "DEFAULT", Priority: rng.Intn(3), Order: []string{"fifo", "none"}[rng.Intn(2)], Delete: rng.Intn(2) == 0, Method: "http"})
+		// (a method that is not given: the DEFAULT tag's, and without one there, http)
+		tags = append(tags, tagSpec{Pattern: "DEFAULT", Priority: rng.Intn(3), Order: []string{"fifo", "none"}[rng.Intn(2)], Delete: rng.Intn(2) == 0, Method: []string{"http", ""}[rng.Intn(2)]})
 		perm := rng.Perm(len(pats))
 		if rng.Intn(3) == 0 {
 			// "specific rules first, catch-all last": the catch-all's pattern also matches the specific rule's text
@@ -908,23 +909,39 @@ func zzC19(t *testing.T, res *zzResult, rng *rand.Rand, work, tier string) {
 			perm = append(first, rest...)
 		}
 		for j := 1; j < ntags; j++ {
-			tags = append(tags, tagSpec{Pattern: pats[perm[j-1]], Priority: 1 + rng.Intn(5), Order: []string{"fifo", "lifo", "none"}[rng.Intn(3)], Delete: rng.Intn(2) == 0, Method: []string{"http", "http", "disk"}[rng.Intn(3)]})
+			tags = append(tags, tagSpec{Pattern: pats[perm[j-1]], Priority: 1 + rng.Intn(5), Order: []string{"fifo", "lifo", "none"}[rng.Intn(3)], Delete: rng.Intn(2) == 0, Method: []string{"http", "", "disk"}[rng.Intn(3)]})
 		}
 		var tj []map[string]any
 		for _, tg := range tags {
-			tj = append(tj, map[string]any{"pattern": tg.Pattern, "priority": tg.Priority, "order": tg.Order, "delete": fmt.Sprint(tg.Delete), "method": tg.Method})
+			m := map[string]any{"pattern": tg.Pattern, "priority": tg.Priority, "order": tg.Order, "delete": fmt.Sprint(tg.Delete)}
+			if tg.Method != "" {
+				m["method"] = tg.Method
+			}
+			tj = append(tj, m)
+		}
+		// effective methods
+		for j := range tags {
+			if tags[j].Method == "" {
+				tags[j].Method = tags[0].Method
+			}
+			if tags[j].Method == "" {
+				tags[j].Method = "http"
+			}
 		}
 		src := map[string]any{"name": "s", "out-dir": filepath.Join(work, "out"), "log-dir": filepath.Join(work, "log"), "threads": 2,
 			"target": map[string]any{"name": "t", "http-host": "127.0.0.1:1"}, "tags": tj}
 		if rng.Intn(3) == 0 {
 			src["group-by"] = []string{`^([^/]+)/`, `^([a-z]+)`, `.`}[rng.Intn(3)] // "." is what a managed client is given
 		}
-		b, _ := json.Marshal(src)
-		conf := &sts.SourceConf{}
-		if err := json.Unmarshal(b, conf); err != nil {
+		// parsed the way the program parses it: as a source of the OUT section, so that
+		// options a tag omits are filled in from the DEFAULT tag
+		b, _ := json.Marshal(map[string]any{"sources": []any{src}})
+		cconf := &sts.ClientConf{}
+		if err := json.Unmarshal(b, cconf); err != nil || len(cconf.Sources) != 1 {
 			res.Inconclusive++
 			continue
 		}
+		conf := cconf.Sources[0]
 		app := &clientApp{conf: conf, dirCache: filepath.Join(work, "cache")}
 		_ = os.MkdirAll(app.dirCache, 0o755)
 		if err := app.init(); err != nil {
@@ -933,7 +950,7 @@ func zzC19(t *testing.T, res *zzResult, rng *rand.Rand, work, tier string) {
 			continue
 		}
 		bc := app.broker.Conf
-		sc := map[string]any{"tags": tags, "group_by": src["group-by"]}
+		sc := map[string]any{"tags": tags, "tags_as_written": tj, "group_by": src["group-by"]}
 		for _, name := range names {
 			// reference: first tag (after the default) whose pattern matches the NAME
 			want := 0
@@ -997,7 +1014,20 @@ func zzC19(t *testing.T, res *zzResult, rng *rand.Rand, work, tier string) {
 				viol(i, "method-applied", "non-http-tag-not-ignored", fmt.Sprintf("%q matches tag %q with method %q but is not ignored by the store", name, tags[want].Pattern, tags[want].Method), sc)
 			}
 			if tags[want].Method == "http" && ign {
-				// ignored because a LATER non-http tag's pattern matches too: the first matching tag should win
+				// known: ignored because a LATER non-http tag's pattern matches too (the first
+				// matching tag should win); anything else is not that finding
+				later := false
+				for j := 1; j < len(tags); j++ {
+					if j != want && tags[j].Method != "http" {
+						if ok, _ := regexpMatch(tags[j].Pattern, name); ok {
+							later = true
+						}
+					}
+				}
+				if !later {
+					viol(i, "method-applied", "http-tag-ignored", fmt.Sprintf("%q matches tag %q, whose method is http (given, inherited from DEFAULT, or by default), and no tag with another method matches it - yet the store ignores it (tags as written: %v)", name, tags[want].Pattern, tj), sc)
+					continue
+				}
 				viol(i, "method-applied", "http-tag-ignored-by-later-non-http-tag", fmt.Sprintf("%q matches tag %q (http) first but is ignored by the store", name, tags[want].Pattern), sc)
 			}
 		}
